@@ -388,15 +388,22 @@ func StrandTally(p *core.Prog, r *core.Report) {
 	r.Rule("STRAND-TALLY", "gts.checkStrand, evaluated for all 26 non-empty combinations of 0..2 forward, reverse and both-strand parts, returns StrandForward iff all parts are forward, StrandReverse iff all are reverse, StrandBoth otherwise (the per-part switch and the final test are interpreted over the two tallies)", 1)
 	info := p.Info(core.PkgGts)
 	// the function that tallies the parts: checkStrand, or CheckStrand itself when the two are one
+	// found by what it does (a loop over parts whose body switches on CheckStrand of the part), whatever it
+	// is called and whether it is a function or a method
 	var fd *ast.FuncDecl
-	for _, name := range []string{"checkStrand", "CheckStrand"} {
-		cand := p.FuncDecl(core.PkgGts, name)
-		if cand == nil || cand.Body == nil {
+	for _, cand := range p.FuncDecls(core.PkgGts) {
+		if cand.Body == nil || fd != nil {
 			continue
 		}
 		for _, st := range cand.Body.List {
-			if _, ok := st.(*ast.RangeStmt); ok && fd == nil {
-				fd = cand
+			rs, ok := st.(*ast.RangeStmt)
+			if !ok || len(rs.Body.List) != 1 {
+				continue
+			}
+			if sw, ok := rs.Body.List[0].(*ast.SwitchStmt); ok && sw.Tag != nil {
+				if c, ok := ast.Unparen(sw.Tag).(*ast.CallExpr); ok && core.IsCallTo(info, c, core.PkgGts+".CheckStrand") {
+					fd = cand
+				}
 			}
 		}
 	}
